@@ -136,7 +136,7 @@ type (
 	SQuant struct {
 		Forall bool
 		Vars   []string
-		Type   string // Go type text, or spec type (seq[T], set[T])
+		Types  []string // per variable: Go type text, or spec type (seq[T], set[T])
 		Body   SNode
 		Trig   []SNode // optional explicit triggers
 	}
@@ -179,7 +179,11 @@ func (n *SQuant) String() string {
 	if n.Forall {
 		q = "forall"
 	}
-	return "(" + q + " " + strings.Join(n.Vars, ", ") + " " + n.Type + " :: " + n.Body.String() + ")"
+	var vs []string
+	for i, v := range n.Vars {
+		vs = append(vs, v+" "+n.Types[i])
+	}
+	return "(" + q + " " + strings.Join(vs, ", ") + " :: " + n.Body.String() + ")"
 }
 func (n *SCall) String() string {
 	var a []string
@@ -442,18 +446,29 @@ func (ps *parser) primary() SNode {
 		case "false":
 			return &SBool{false}
 		case "forall", "exists":
-			var vars []string
+			var vars, vtypes []string
 			for {
-				v := ps.next()
-				if v.kind != tIdent {
-					ps.fail("expected bound variable")
+				// a group: v1, v2 T
+				var group []string
+				for {
+					v := ps.next()
+					if v.kind != tIdent {
+						ps.fail("expected bound variable")
+					}
+					group = append(group, v.text)
+					if !ps.accept(",") {
+						break
+					}
 				}
-				vars = append(vars, v.text)
+				ty := ps.typeText("::", ",")
+				for _, g := range group {
+					vars = append(vars, g)
+					vtypes = append(vtypes, ty)
+				}
 				if !ps.accept(",") {
 					break
 				}
 			}
-			ty := ps.typeText("::")
 			ps.expect("::")
 			var trig []SNode
 			// optional trigger:  { e1, e2 }
@@ -467,7 +482,7 @@ func (ps *parser) primary() SNode {
 				ps.expect("}")
 			}
 			body := ps.expr()
-			return &SQuant{Forall: t.text == "forall", Vars: vars, Type: ty, Body: body, Trig: trig}
+			return &SQuant{Forall: t.text == "forall", Vars: vars, Types: vtypes, Body: body, Trig: trig}
 		case "old":
 			ps.expect("(")
 			x := ps.expr()
@@ -518,6 +533,7 @@ type FuncContract struct {
 	Asserts  map[int][]*Clause // ghost asserts keyed by statement ordinal? (unused for now)
 	Props    []string // property ids this contract serves
 	Diag     bool     // explicit panics allowed (default true)
+	GhostSets [][2]string // ghostset <name> <expr>: at every exit the ghost flag <name> of object <expr> becomes 1
 	Line     string
 }
 
@@ -629,6 +645,12 @@ func parseContractText(pkg, fname, text string) (*ContractFile, error) {
 			for _, m := range strings.Split(rest, ",") {
 				cur.Modifies = append(cur.Modifies, strings.TrimSpace(m))
 			}
+		case "ghostset":
+			if err := flush(); err != nil {
+				return nil, err
+			}
+			nm, ex := splitWord(rest)
+			cur.GhostSets = append(cur.GhostSets, [2]string{nm, ex})
 		case "pure":
 			cur.Pure = true
 		case "trusted":
